@@ -16,7 +16,7 @@ CHECKS = {
  "C04": ("exploration", "lsv-loom", "proptest-generated concurrent programs, each explored by loom over all schedules up to a preemption bound; buffer accesses mapped to loom cells through the hooks; per-thread sequential String model",
          "Small concurrent programs over one shared heap buffer are generated and shrunk by proptest; for each, loom enumerates schedules and visibility orders. Oracles in every execution: each thread's handles read what its own operations produce; no buffer access (reads, write windows, realloc, free) unordered with a conflicting one; every buffer released exactly once. Bounded by loom's preemption bound and memory-model subset.", "DESIGN.md §5.4, §6 C04"),
  "C05": ("fault_enumeration", "lsv", "fault injection enumerated over every allocator request of proptest-generated histories (singles; pairs in thorough)",
-         "For each generated history every allocator request index is failed in turn (thorough: pairs); oracle: Err/clean panic, target unchanged (or whole-item prefix for iterator-driven calls), other handles untouched, refcounts and heap consistent, nothing leaked.", "DESIGN.md §6 C05"),
+         "For each generated history every allocator request index is failed in turn (thorough: pairs); oracle: Err/clean panic, target handle identical (or whole-item prefix for iterator-driven calls), other handles untouched, refcounts and heap consistent, nothing leaked. A catalogue of 9 target states x every allocating/callback operation is enumerated too, and every allocation an entry point makes outside the crate's own buffer management (none on the unchanged tree) is refused in turn (an abort is reported through crash triage).", "DESIGN.md §6 C05"),
  "C06": ("exploration", "lsv", "exhaustive size grid (powers of two, 56-bit boundary, isize/usize MAX, each +-2 and minus len) x entry points x target states, plus proptest histories with giant sizes and lying size hints; shim refuses giant requests deterministically",
          "Every grid size through every size-taking entry point (incl. iterator size hints) in 9 storage states, followed by further use of all handles; oracle: documented postcondition on Ok, ReserveError only when a limit is exceeded or the allocator refused, target/other handles/refcounts/heap unchanged after a failure, clean panic text for the panicking forms.", "DESIGN.md §6 C06"),
  "C07": ("exploration", "lsv", "index grid: all UTF-8 width patterns x storage states x index operations x every byte index, differential against String's panics; plus proptest histories",
@@ -24,7 +24,7 @@ CHECKS = {
  "C08": ("exploration", "lsv", "clone sweep over lengths 0..4 MiB x source states x clone counts with an allocator-request counter, plus clone oracles inside proptest histories",
          "All clone-like calls are checked for zero allocator requests, pointer identity (heap/static) or equal handle bytes (inline), equality and intact survivors after drops, across lengths, states and clone counts.", "DESIGN.md §6 C08"),
  "C09": ("exploration", "lsv", "constructor sweep over all width compositions <= 16 bytes and every final byte, through every listed route, with an allocator-request counter; proptest inline-edit histories",
-         "Every listed constructor/conversion on every text shape up to 16 bytes (every final byte value) must not touch the allocator; longer texts must allocate exactly once with capacity == len; inline edit histories staying within 16 bytes must not allocate.", "DESIGN.md §6 C09"),
+         "Every listed constructor/conversion on every text shape up to 16 bytes (every final byte value) must not touch the allocator - neither the crate's own buffer management (hooks) nor anything else (a counting global allocator sees temporaries) - incl. owned inputs with spare capacity; longer texts must allocate exactly once with capacity == len; inline edit histories staying within 16 bytes must not allocate.", "DESIGN.md §6 C09"),
  "C10": ("exploration", "lsv", "stateful PBT over handles derived from a pool of leaked 'static texts; pristine-copy comparison after every step; allocator-request counter",
          "from_static_str/clone/pop/truncate/clear on static handles never allocate and keep pointing at the caller's bytes; any later operation leaves the handle a prefix of the static text or an owned copy equal to the model; the static bytes are compared with pristine copies after every step.", "DESIGN.md §6 C10"),
  "C11": ("exploration", "lsv", "stateful PBT with capacity-relative argument generation (fill to capacity +-2); invariant capacity >= len on every handle every step; zero-request oracle within capacity",
@@ -44,7 +44,7 @@ CHECKS = {
  "C18": ("fault_enumeration", "lsv", "callback-panic position enumeration over proptest-generated histories, String-after-same-panic as oracle, shadow-heap leak accounting",
          "Every callback-taking operation of each generated history is re-run with its callback panicking at invocation k for every k that fires; compared with String after the identical panic, plus isolation, refcount and leak invariants.", "DESIGN.md §6 C18"),
  "C19": ("exploration", "lsv-features", "differential vs String/&str with the serde and arbitrary features on: recording Serializer, serde value deserializers, serde_json, exhaustive byte-class sequences, proptest texts and Unstructured seeds",
-         "Serialisation equals String's (one serialize_str), every str/borrowed str/String/bytes/borrowed bytes input deserialises to the text or is rejected exactly when it is not UTF-8, and LeanString::arbitrary / arbitrary_take_rest / size_hint equal <&str>'s on the same Unstructured over consecutive draws.", "DESIGN.md §6 C19"),
+         "Serialisation equals String's (one serialize_str), every str/borrowed str/String/bytes/borrowed bytes input deserialises to the text or is rejected exactly when it is not UTF-8, every visitor entry point (visit_str/borrowed_str/string/bytes/borrowed_bytes/byte_buf and non-string inputs) and deserialize_in_place into 7 kinds of pre-existing content agree with String; LeanString::arbitrary / arbitrary_take_rest / size_hint equal <&str>'s on the same Unstructured over consecutive draws.", "DESIGN.md §6 C19"),
  "C20": ("exploration", "lsv", "niche/layout sweep, Option round trips in proptest histories, and a configuration-matrix differential: identical seeded histories digested in every feature set x optimisation level (and hooks-off builds)",
          "Sizes and alignment asserted; Some(s) matched as Some for every inline final byte and heap/static length; the same generated histories run with all C01-C03 oracles in the default build and produce identical value and allocator-event digests in {default, no-default-features, all features} x {optimised without debug assertions, unoptimised} and in hooks-off builds; all 8 feature combinations of the crate build.", "DESIGN.md §6 C20"),
 }
@@ -86,7 +86,7 @@ def main():
              "kind_free_text": "proptest-driven stateful model-based history explorer with shadow heap, fault/panic enumerators, grids and value-domain differential engines"},
         ],
         "checks": checks,
-        "notes": "All checks: ./check <ID> quick|thorough (cwd /verif); VERIF_SEED honoured; exit 2 = infrastructure trouble / inconclusive, never a violation. Fix commits in /repo are listed in known_findings.json.",
+        "notes": "tools/: try_mutant.sh / verify_mutant.sh / seeded_matrix.sh (sensitivity against the 130+ seeded changes under seeded/), refresh_evidence.sh, silence.sh (multi-seed runs on the unchanged tree), iso_setup.sh. All checks: ./check <ID> quick|thorough (cwd /verif); VERIF_SEED honoured; exit 2 = infrastructure trouble / inconclusive, never a violation. Fix commits in /repo are listed in known_findings.json.",
         "not_applicable": na,
     }
     json.dump(m, open(os.path.join(ROOT, "MANIFEST.json"), "w"), indent=1)
